@@ -50,7 +50,9 @@ fn main() {
             }
             for keep in [false, true] {
                 let name = format!("{}_{}", if keep { "k" } else { "n" }, stem);
-                let target = out.join(format!("{name}.rs"));
+                // split output goes to directories named after the namespace, next to the target file: one directory
+                // per run, or runs over the same namespace (n_/k_, a file and its includer) overwrite each other
+                let target = if split { fs::create_dir_all(out.join(&name)).unwrap(); out.join(&name).join(format!("{name}.rs")) } else { out.join(format!("{name}.rs")) };
                 let (p2, t2) = (p.clone(), target.clone());
                 let ok = guarded(&name, &mut failures, move || {
                     let mut b = pilota_build::Builder::thrift().ignore_unused(ignore_unused).change_case(change_case).split_generated_files(split);
@@ -71,7 +73,7 @@ fn main() {
     for p in &protos {
         let stem = p.file_stem().unwrap().to_str().unwrap().to_string();
         let name = format!("n_{stem}");
-        let target = out.join(format!("{name}.rs"));
+        let target = if split { fs::create_dir_all(out.join(&name)).unwrap(); out.join(&name).join(format!("{name}.rs")) } else { out.join(format!("{name}.rs")) };
         let (p2, t2, inc) = (p.clone(), target.clone(), corpus.join("proto"));
         let ok = guarded(&name, &mut failures, move || {
             pilota_build::Builder::protobuf()
